@@ -34,13 +34,13 @@ VARIANTS = {"homo": ["gaussian", "missingobs", "mtask"], "fixed": ["fixed"], "fi
 
 
 def write_mc(workdir, name, part, pool=(), test=(), s2=1, maxn=3, liks=("homo",), hows=("fresh",), maxchunk=1, arith=True,
-             scales=(0,), maxdim=5, modes=("exact",), invariants=(), properties=()):
+             scales=(0,), maxdim=5, modes="{PathExact}", invariants=(), properties=()):
     os.makedirs(workdir, exist_ok=True)
     mod = "MC_Validity_" + name
     sset = lambda xs: "{" + ", ".join(tla(x) for x in xs) + "}"
     with open(os.path.join(workdir, mod + ".tla"), "w") as f:
         f.write("---- MODULE %s ----\nEXTENDS Validity\nPoolDef == %s\nTestDef == %s\nLevelsDef == %s\nLiksDef == %s\nHowsDef == %s\nScalesDef == %s\nModesDef == %s\n====\n" % (
-            mod, tla(pool), tla(test), tla(LEVELS), sset(liks), sset(hows), sset(scales), sset(modes)))
+            mod, tla(pool), tla(test), tla(LEVELS), sset(liks), sset(hows), sset(scales), modes))
     cfg = os.path.join(workdir, mod + ".cfg")
     tlc.write_cfg(cfg, spec="Spec", constants={"Part": part, "Pool": "<- PoolDef", "Test": "<- TestDef", "S2": s2, "Levels": "<- LevelsDef",
                                                "Liks": "<- LiksDef", "Hows": "<- HowsDef", "Modes": "<- ModesDef", "MaxChunk": maxchunk, "Arith": bool(arith), "MaxN": maxn,
@@ -149,7 +149,7 @@ def set_lengthscales(torch, kern, ls):
                 mod.lengthscale = (mod.lengthscale * 0 + ls) * (1 + 0.3 * torch.arange(k, dtype=mod.lengthscale.dtype))
 
 
-def psd_report(torch, M, what, tol=1e-8, ref=None):
+def psd_report(torch, M, what, tol=1e-8, ref=None, stol=1e-10):
     """symmetric and PSD up to rounding: lambda_min >= -tol * max(lambda_max, tiny)"""
     if M.numel() == 0:
         return None
@@ -157,7 +157,7 @@ def psd_report(torch, M, what, tol=1e-8, ref=None):
         return "%s has non-finite entries" % what
     asym = float((M - M.transpose(-1, -2)).abs().max())
     scale = max(float(M.abs().max()), float(ref or 0.0), 1e-300)
-    if asym > 1e-10 * scale:
+    if asym > stol * scale:
         return "%s is not symmetric (max asymmetry %.3e, scale %.3e)" % (what, asym, scale)
     ev = torch.linalg.eigvalsh((M + M.transpose(-1, -2)) / 2)
     lo, hi = float(ev.min()), float(ev.max())
@@ -180,7 +180,54 @@ def _worker(item):
 def run_case(torch, gpytorch, c, cache=None):
     if c["what"] == "gram":
         return run_gram(torch, gpytorch, c, cache)
+    if c["what"] == "noisecell":
+        return run_noise_cell(torch, gpytorch, c)
     return run_chain(torch, gpytorch, c)
+
+
+def pkey(md):
+    """hashable form of a path record of the spec"""
+    return tuple(sorted((k, bool(v)) for k, v in md.items()))
+
+
+P_EXACT = pkey(dict(fast=False, lazy=False, cg=False, detach=True, steps=True))
+P_FAST = pkey(dict(fast=True, lazy=False, cg=False, detach=True, steps=True))
+
+
+def norm_path(md):
+    """a computational path of Validity.tla (Paths): fast_pred_var x lazy test/test block x CG x detach_test_caches"""
+    if isinstance(md, dict):
+        return dict(fast=bool(md["fast"]), lazy=bool(md["lazy"]), cg=bool(md["cg"]), detach=bool(md["detach"]), steps=bool(md.get("steps", not md["cg"])))
+    return dict(fast=md == "fast", lazy=False, cg=False, detach=True, steps=True)
+
+
+def path_name(p):
+    return "%s/%s/%s/%s" % ("fast" if p["fast"] else "solve", "lazy" if p["lazy"] else "eager", "cg" if p["cg"] else "chol", "detach" if p["detach"] else "graph")
+
+
+class path_settings(object):
+    """the settings that select the path: small problems take the branches of large ones by lowering the size thresholds"""
+
+    def __init__(self, torch, path):
+        from contextlib import ExitStack
+        from gpytorch import settings
+        self.stack = ExitStack()
+        self.ctx = [settings.fast_pred_var(path["fast"]), settings.detach_test_caches(path["detach"]),
+                    torch.no_grad() if path["detach"] else torch.enable_grad()]
+        if path["lazy"]:
+            self.ctx.append(settings.max_eager_kernel_size(0))        # joint size > threshold: the test/test block stays lazy
+        if path["cg"]:
+            # size > max_cholesky_size: CG solves / Lanczos roots; run to convergence (the systems have at most 6 rows)
+            self.ctx += [settings.max_cholesky_size(0), settings.eval_cg_tolerance(1e-13), settings.cg_tolerance(1e-13), settings.max_cg_iterations(200),
+                         settings.max_root_decomposition_size(100)]
+
+    def __enter__(self):
+        for c in self.ctx:
+            self.stack.enter_context(c)
+        return self
+
+    def __exit__(self, *a):
+        return self.stack.__exit__(*a)
 
 
 def in_domain(torch, dom, x):
@@ -314,6 +361,8 @@ def make_lik(torch, gpytorch, variant, noise, nm):
     with torch.no_grad():
         if variant in ("gaussian", "missingobs", "mtask"):
             lik.noise = HOMO
+        if variant == "mtask":
+            lik.task_noises = torch.tensor([0.04, 1.5], dtype=D)      # pairwise distinct, below and above the signal variance
         if variant == "fixed+learned":
             lik.second_noise = S2_REAL
     return lik
@@ -326,19 +375,25 @@ def run_chain(torch, gpytorch, c):
     D = torch.float64
     fam, arg, ard = c["kernel"]
     geom, d, lik_kind, variant = c["geometry"], c["d"], c["lik"], c["variant"]
-    obs, hist, fast = c["obs"], c["hist"], c.get("mode") == "fast"
+    path = norm_path(c.get("mode"))
+    obs, hist, fast = c["obs"], c["hist"], path["fast"]
+    plain = not (path["lazy"] or path["cg"] or not path["detach"])
     name = kname(fam, arg, ard)
     dom = DOMAIN.get(fam, "any")
     fixedkind = lik_kind in ("fixed", "fixed+learned")
     mt = variant == "mtask"
     hows = "+".join("%s%d" % (h, m) for h, m in hist)
-    desc = "%s geometry=%s d=%d likelihood=%s%s obs=%s history=%s" % (name, geom, d, variant, " fast_pred_var" if fast else "", obs, hows)
+    desc = "%s geometry=%s d=%d likelihood=%s%s obs=%s history=%s" % (name, geom, d, variant, (" fast_pred_var" if fast else "") if plain else " path=" + path_name(path), obs, hows)
     res = []
 
     def rec(what, bad, step=0):
-        res.append(dict(key=[name, geom, variant, fast, repr(obs), hows, step, what], ok=bad is None, nontrivial=True,
-                        sig="C07/%s/%s/%s" % (what, variant, "+".join(sorted(set(h for h, _ in hist[:max(step, 1)])))),
+        res.append(dict(key=[name, geom, variant, fast if plain else path_name(path), repr(obs), hows, step, what], ok=bad is None, nontrivial=True,
+                        sig=("C07/%s/%s/%s" % (what, variant, "+".join(sorted(set(h for h, _ in hist[:max(step, 1)])))) if plain else
+                             "C07/%s/%s/%s/%s" % (what, variant, "fantasy" if any("fantasy" in h for h, _ in hist[:max(step, 1)]) else "plain", path_name(path))),
                         detail="%s: %s" % (desc, bad), case=c))
+    # iterative (CG / Lanczos) paths: run to convergence, compared at the tolerance of the iterative paths (2e-5)
+    # (CG solves the columns of K(X, x*) independently: the asymmetry of the result is its residual, observed up to 3e-6 relative)
+    ptol, stol, dtol = (2e-5, 1e-4, 2e-5) if path["cg"] else (1e-8, 1e-10, DIFF_TOL)
     g = torch.Generator().manual_seed(c["seed"])
     torch.manual_seed(c["seed"])
     kern = families(torch, gpytorch)[fam](arg, d, ard).to(D)
@@ -374,12 +429,11 @@ def run_chain(torch, gpytorch, c):
     def predict(model):
         model.eval()
         model.likelihood.eval()
-        with settings.fast_pred_var(fast):
-            o = model(xs)
-            o.covariance_matrix
+        o = model(xs)
+        o.covariance_matrix
         lk = model.likelihood
         mo = lk(o, noise=test_noise) if fixedkind else lk(o, xs) if variant == "hetero" else lk(o)
-        return o.covariance_matrix.clone(), o.variance.clone(), o.stddev.clone(), mo.covariance_matrix.clone()
+        return tuple(t.detach().clone() for t in (o.covariance_matrix, o.variance, o.stddev, mo.covariance_matrix))
 
     with torch.no_grad():
         ok, prior = core.guarded(lambda: covar(xs).to_dense())
@@ -415,7 +469,7 @@ def run_chain(torch, gpytorch, c):
                 nz = [NZ[a:b].clone() if fixedkind else None, None if fixedkind else NZ[a:b].clone()]
                 return ml.get_fantasy_model([X[a:b], X[a:b]], [targets(a, b, mt), Y[a:b, 1]], noise=nz).models[0]
             raise core.Machinery("unknown step %r" % how)
-        with torch.no_grad():
+        with path_settings(torch, path):       # the settings are in force for the update and the prediction (as a user sets them globally)
             ok, model2 = core.guarded(apply)
             if ok:
                 model = model2
@@ -423,25 +477,197 @@ def run_chain(torch, gpytorch, c):
             else:
                 r = model2
         where = "step %d (%s %d observation(s), %d in total)" % (step, how, m, b)
+        if ok and path["fast"] and path["cg"]:
+            # LOVE (Lanczos root of (K + noise)^-1 from one random probe) is exact only if the Krylov space is the whole space:
+            # K + noise with pairwise distinct eigenvalues.  Degenerate spectra (e.g. K + s2 I = c I for a compact-support kernel
+            # on separated points, thrice the same row) are outside what this path promises: the history stops there.
+            def spectrum():
+                with torch.no_grad():
+                    tr = model.train_inputs
+                    d0 = model.forward(*tr)
+                    A = model.likelihood(d0, *tr) if variant == "hetero" else model.likelihood(d0)
+                    return torch.linalg.eigvalsh(A.covariance_matrix)
+            ok2, ev = core.guarded(spectrum)
+            if not ok2:
+                rec("chain-raises", "%s: train covariance: %s" % (where, ev), step)
+                return res
+            if ev.numel() > 1 and float((ev[1:] - ev[:-1]).min()) < 1e-4 * float(ev.max()):
+                return res
         if not ok:
             rec("chain-raises", "%s: %s" % (where, r), step)
             return res
         cov, var, sd, mcov = r
-        bad = psd_report(torch, cov, "posterior covariance after %s" % where)
+        bad = psd_report(torch, cov, "posterior covariance after %s" % where, ptol, stol=stol)
         rec("posterior", bad, step)
         if bad:
             return res
         # differences of covariances: distances of nearly coincident rows carry sqrt(eps) ~ 1e-8 of rounding (r = sqrt(squared
         # distance)), which kernels with a cusp at r = 0 pass on to the entries: 1e-6 relative to the prior is "up to rounding" here
-        rec("reduction", psd_report(torch, prior - cov, "prior - posterior covariance after %s" % where, DIFF_TOL, ref=pscale), step)
-        rec("step-reduction", psd_report(torch, prev_cov - cov, "cov(before) - cov(after) for %s" % where, DIFF_TOL, ref=pscale), step)
-        rec("marginal", psd_report(torch, mcov, "marginal covariance after %s" % where), step)
-        inc = float((torch.diagonal(cov) - torch.diagonal(prev_cov)).max())
-        rec("variance-monotone", None if inc <= DIFF_TOL * max(pscale, 1e-12) else "%s: a posterior variance INCREASED by %.3e by adding observations" % (where, inc), step)
+        rec("reduction", psd_report(torch, prior - cov, "prior - posterior covariance after %s" % where, dtol, ref=pscale, stol=stol), step)
+        rec("marginal", psd_report(torch, mcov, "marginal covariance after %s" % where, ptol, stol=stol), step)
+        # conditioning never adds uncertainty: no posterior variance exceeds the prior variance at the same point (every path)
+        inc0 = float((torch.diagonal(cov) - torch.diagonal(prior)).max())
+        rec("variance-below-prior", None if inc0 <= dtol * max(pscale, 1e-12) else "%s: a posterior variance EXCEEDS the prior variance by %.3e" % (where, inc0), step)
+        if path["steps"]:                      # clauses that compare two posteriors: on the paths that compute the denotation (Validity.tla Path.steps)
+            rec("step-reduction", psd_report(torch, prev_cov - cov, "cov(before) - cov(after) for %s" % where, DIFF_TOL, ref=pscale), step)
+            inc = float((torch.diagonal(cov) - torch.diagonal(prev_cov)).max())
+            rec("variance-monotone", None if inc <= DIFF_TOL * max(pscale, 1e-12) else "%s: a posterior variance INCREASED by %.3e by adding observations" % (where, inc), step)
         mv = settings.min_variance.value(var.dtype)
         rec("variance-floor", None if (float(var.min()) >= mv and torch.isfinite(sd).all() and float((sd - var.sqrt()).abs().max()) <= 1e-12) else
             "%s: reported variance %.3e below min_variance %.1e or stddev not its square root" % (where, float(var.min()), mv), step)
         prev_cov = cov
+    return res
+
+
+# ---------------------------------------------------------------------------------------------
+NOISE_T, NOISE_N = 3, 4
+BOUND_VALUE = {"default": 1e-4, "custom": 1e-2, "interval": 2e-2}
+RAW_VALUES = {"edge": (-1e6, -30.0), "mid": (0.0,), "large": (30.0,)}
+
+
+def run_noise_cell(torch, gpytorch, c):
+    """one cell of part "noise" of Validity.tla: the noise the likelihood ADDS (marginal - latent covariance; variance of
+    p(y | f)) minus (number of constrained components switched on) * (the lower bound the constraint reports) is PSD"""
+    import warnings
+    from gpytorch.constraints import GreaterThan, Interval
+    from gpytorch.distributions import MultivariateNormal, MultitaskMultivariateNormal
+    L = gpytorch.likelihoods
+    D = torch.float64
+    sh, rawc, bc = c["shape"], c["raw"], c["bound"]
+    fam, T, n = sh["lik"], NOISE_T, NOISE_N
+    mt = fam == "multitask"
+    sw = "glob%d-task%d-rank%d" % (sh["glob"], sh["task"], sh["rank"]) if mt else "-"
+    tag = fam if not mt else "multitask/" + sw
+    res = []
+
+    def rec(what, bad, raw=None, extra=""):
+        res.append(dict(key=["noisecell", tag, bc, rawc, raw, what, extra], ok=bad is None, nontrivial=True, sig="C07/%s/%s" % (what, tag),
+                        detail="%s constraint=%s raw=%s %s: %s" % (tag, bc, raw, extra, bad), case=c))
+    floor = c["floor"][0] / c["floor"][1]
+    if c["valid"] and abs(floor - c["ncon"] * BOUND_VALUE[bc]) > 1e-15:
+        raise core.Machinery("bound classes of Validity.tla and of the replay differ: %r" % c)
+
+    def constraint():
+        return None if bc == "default" else GreaterThan(BOUND_VALUE[bc]) if bc == "custom" else Interval(BOUND_VALUE[bc], 0.5)
+
+    g = torch.Generator().manual_seed(c["seed"])
+    x = torch.rand(n, 2, generator=g, dtype=D)
+    fixedvec = torch.tensor([1e-12, 0.02, 0.3, 1.0] if rawc == "edge" else [0.05, 0.02, 0.3, 1.0], dtype=D)
+
+    def build(raw):
+        torch.manual_seed(c["seed"])
+        kw = {} if bc == "default" else dict(noise_constraint=constraint())
+        if fam == "gaussian":
+            return L.GaussianLikelihood(**kw)
+        if fam == "missingobs":
+            return L.GaussianLikelihoodWithMissingObs(**kw)
+        if fam in ("fixed", "fixed+learned"):
+            return L.FixedNoiseGaussianLikelihood(noise=fixedvec.clone(), learn_additional_noise=fam == "fixed+learned", **kw)
+        if fam in ("dirichlet", "dirichlet+learned"):
+            return L.DirichletClassificationLikelihood(torch.tensor([0, 1, 2, 1]), alpha_epsilon=0.01, learn_additional_noise=fam == "dirichlet+learned", dtype=D, **kw)
+        if fam == "hetero":
+            from gpytorch.likelihoods.gaussian_likelihood import _GaussianLikelihoodBase
+            from gpytorch.likelihoods.noise_models import HeteroskedasticNoise
+            nl = L.GaussianLikelihood().to(D)
+
+            class NM(gpytorch.models.ExactGP):       # a noise model whose prediction is the raw value (times 1, 1.1, ...)
+                def __init__(s_):
+                    super().__init__(x, raw * (1 + 0.1 * torch.arange(n, dtype=D)) if raw < 0 else raw + 0.1 * torch.arange(n, dtype=D), nl)
+                    s_.mean_module = gpytorch.means.ZeroMean()
+                    s_.covar_module = gpytorch.kernels.RBFKernel()
+
+                def forward(s_, xx):
+                    return MultivariateNormal(s_.mean_module(xx), s_.covar_module(xx))
+            nm = NM().to(D)
+            nm.covar_module.lengthscale = 1e-3       # interpolates its targets at the training inputs
+            return _GaussianLikelihoodBase(noise_covar=HeteroskedasticNoise(nm, **kw))
+        if mt:
+            return L.MultitaskGaussianLikelihood(num_tasks=T, rank=sh["rank"], has_global_noise=sh["glob"], has_task_noise=sh["task"], **kw)
+        raise core.Machinery("unknown likelihood family %r" % fam)
+
+    if not c["valid"]:
+        with warnings.catch_warnings():
+            warnings.simplefilter("ignore")
+            ok, r = core.guarded(lambda: build(0.0))
+        rec("noise-switches", None if (not ok and r.startswith("ValueError")) else "a likelihood without any noise term was not refused: %s" % (r,))
+        return res
+    A = torch.randn(n * (T if mt else 1), n * (T if mt else 1) + 2, generator=g, dtype=D)
+    Kf = A @ A.T / A.shape[1] + 0.5 * torch.eye(A.shape[0], dtype=D)
+    for raw in RAW_VALUES[rawc]:
+        for il in ((True, False) if mt else (None,)):
+            for training in (False, True):
+                extra = "%s%s" % ("train" if training else "eval", "" if il is None else " interleaved=%s" % il)
+
+                def evaluate():
+                    lik = build(raw).to(D)
+                    with torch.no_grad():
+                        for pn, p_ in lik.named_parameters():
+                            if pn.split(".")[-1] in ("raw_noise", "raw_task_noises") and "noise_model" not in pn:
+                                k = torch.arange(p_.numel(), dtype=D).reshape(p_.shape)
+                                p_.copy_(raw * (1 + 0.1 * k) if raw < 0 else raw + 0.1 * k)
+                    lik.train(training)
+                    # the lower bounds the constraints of the components that are switched on report
+                    lbs = []
+                    for mn, mod in lik.named_modules():
+                        if "noise_model" in mn:
+                            continue
+                        for pn in ("raw_noise", "raw_task_noises"):      # (one constraint object may serve two parameters: ask per parameter)
+                            if pn in mod._parameters and mod.constraint_for_parameter_name(pn) is not None:
+                                lbs.append(float(torch.as_tensor(mod.constraint_for_parameter_name(pn).lower_bound).min()))
+                    if fam == "hetero":
+                        lbs.append(float(lik.noise_covar._noise_constraint.lower_bound))
+                    stored = lik.noise_covar.noise.detach().clone() if sh["fixed"] else None
+                    with torch.no_grad():
+                        if mt:
+                            f = MultitaskMultivariateNormal(torch.zeros(n, T, dtype=D), Kf, interleaved=il)
+                            smp = torch.zeros(n, T, dtype=D)
+                        elif fam.startswith("dirichlet"):
+                            f = MultivariateNormal(torch.zeros(3, n, dtype=D), Kf.expand(3, n, n))
+                            smp = torch.zeros(3, n, dtype=D)
+                        else:
+                            f = MultivariateNormal(torch.zeros(n, dtype=D), Kf)
+                            smp = torch.zeros(n, dtype=D)
+                        args = (x,) if fam == "hetero" else ()
+                        marg, cond = lik(f, *args), lik(smp, *args)
+                        return lbs, stored, (marg.covariance_matrix - f.covariance_matrix).clone(), cond.variance.clone()
+                with warnings.catch_warnings():
+                    warnings.simplefilter("ignore")
+                    ok, r = core.guarded(evaluate)
+                if not ok:
+                    rec("noise-raises", r, raw, extra)
+                    continue
+                lbs, stored, added, cvar = r
+                # (the constraint keeps its bounds in float32 buffers: the bound it REPORTS is the float32 rounding of the argument)
+                if len(lbs) != c["ncon"] or any(abs(b - BOUND_VALUE[bc]) > 1e-6 * BOUND_VALUE[bc] for b in lbs):
+                    rec("noise-bound-reported", "the constraints of the noise terms switched on report lower bounds %s, expected %d x %g" % (lbs, c["ncon"], BOUND_VALUE[bc]), raw, extra)
+                    continue
+                floor = float(sum(lbs))
+                rem = added - floor * torch.eye(added.shape[-1], dtype=D)
+                if stored is not None:
+                    min_fixed = gpytorch.settings.min_fixed_noise.value(D)
+                    if float(stored.min()) < min_fixed:
+                        rec("noise-floor", "stored fixed noise %.3e below min_fixed_noise %.1e" % (float(stored.min()), min_fixed), raw, extra)
+                        continue
+                    rem = rem - torch.diag_embed(stored)
+                bad = None
+                if not torch.isfinite(added).all():
+                    bad = "noise added is not finite"
+                else:
+                    asym = float((added - added.transpose(-1, -2)).abs().max())
+                    ev = float(torch.linalg.eigvalsh((rem + rem.transpose(-1, -2)) / 2).min())
+                    dmin = float(torch.diagonal(added, dim1=-1, dim2=-2).min())
+                    if asym > 1e-12 or ev < -1e-12 * max(1.0, float(added.abs().max())):
+                        bad = ("noise added to the marginal (smallest diagonal entry %.3e) is below the lower bound the constraints report: %d x %g%s; "
+                               "lambda_min(added - bound) = %.3e" % (dmin, c["ncon"], BOUND_VALUE[bc], " + the stored fixed noise" if stored is not None else "", ev))
+                    elif c["tight"] and raw <= -1e3 and float((added - floor * torch.eye(added.shape[-1], dtype=D)).abs().max()) > 1e-12:
+                        bad = "at the edge of the raw range the noise added is not the bound itself: %s vs %g" % (torch.diagonal(added, dim1=-1, dim2=-2).reshape(-1)[:4].tolist(), floor)
+                rec("noise-floor", bad, raw, extra + " marginal")
+                # variance of p(y | f)
+                vfl = floor + (stored if stored is not None else 0.0)
+                low = float((cvar.reshape(-1) - (vfl.reshape(-1) if stored is not None else vfl)).min()) if stored is not None and stored.numel() == cvar.numel() else float(cvar.min()) - floor
+                bad2 = None if (torch.isfinite(cvar).all() and low >= -1e-12 * max(1.0, float(cvar.abs().max()))) else \
+                    "variance of p(y|f) (min %.3e) is below the lower bound the constraints report (%d x %g%s)" % (float(cvar.min()), c["ncon"], BOUND_VALUE[bc], " + the stored fixed noise" if stored is not None else "")
+                rec("noise-floor", bad2, raw, extra + " p(y|f)")
     return res
 
 
@@ -547,11 +773,21 @@ def run(ck):
                "function at exact rational radii.  Growth histories (part growth): every sequence of (pool point, own noise level) x every way of adding it in "
                "chunks of 1..2 (fresh model, set_train_data, get_fantasy_model, IndependentModelList.get_fantasy_model) x noise structure (homoskedastic, fixed, "
                "fixed + learned, input dependent) up to the bound, walked on real exact GPs: after every step posterior / prior - posterior / "
-               "cov(before) - cov(after) / marginal PSD, variances non-increasing and >= min_variance; non-trivial = all")
+               "cov(before) - cov(after) / marginal PSD, variances non-increasing, never above the prior variance and >= min_variance.  Computational paths: every "
+               "(noise structure, history shape of <= 2 observations) on each of the 16 paths fast_pred_var x lazy / eager test-test block (max_eager_kernel_size "
+               "lowered) x Cholesky / CG + Lanczos (max_cholesky_size lowered) x detach_test_caches, homoskedastic ones also on the multitask (Kronecker) model.  "
+               "Noise lattice (part noise): Gaussian-family likelihood x has_global_noise x has_task_noise x rank 0 / 1 / full, fixed / fixed + learned / Dirichlet "
+               "(+ learned) / input dependent x constraint class x raw value class (strongly negative, 0, large): noise ADDED to the marginal and variance of "
+               "p(y|f) minus (constrained components switched on) x (the lower bound the constraint reports) is PSD, equality at the edge; non-trivial = all")
     ck.assumptions = ["PSD up to rounding: symmetric to 1e-10 relative, lambda_min >= -1e-8 * lambda_max in float64; differences of covariances / variances along a history: 1e-6 relative to the prior "
                       "(test points coincide with training rows; the distance of nearly coincident rows is only accurate to sqrt(eps))",
                       "CosineKernel only for d=1, CylindricalKernel inside the unit ball, HammingIMQKernel on one-hot sequences, GridInterpolationKernel inside its grid (d <= 3)",
                       "growth: 7 pool rows, fixed noise levels 0.02 / 0.4, learned second noise 0.25, homoskedastic noise 0.05, lengthscale 0.7; predictions with fast_pred_var off and on",
+                      "iterative paths (CG / Lanczos, thresholds lowered so that <= 6-row systems take them; CG run to 1e-13 / 200 iterations): compared at 2e-5 relative (symmetry 1e-4); the clauses that "
+                      "compare two posteriors (step reduction, monotone variances) are decided on the Cholesky paths only (Validity.tla Path.steps); fast_pred_var + Lanczos (LOVE) "
+                      "is exact only when K + noise has pairwise distinct eigenvalues: a history stops where the relative eigenvalue gap falls below 1e-4",
+                      "noise lattice: 3 tasks, 4 points, constraints GreaterThan(1e-4) (default) / GreaterThan(1e-2) / Interval(2e-2, 0.5); the bound compared with is the one the "
+                      "constraint object reports (float32 rounding of the argument); rank > 0 task noise F F' and stored fixed noise are unconstrained remainders (PSD / as stored)",
                       "DirichletClassificationLikelihood is not walked: ExactGP.get_fantasy_model never passes the `targets` keyword its get_fantasy_likelihood requires",
                       "numeric sampling in the inputs; exhaustive in family x argument x d x ARD x scale x geometry class and (thorough) in the growth histories; "
                       "quick: every (noise structure, history shape) with 4 of the 19 kernels, observation sequence / geometry / likelihood class rotating"]
@@ -575,14 +811,19 @@ def run(ck):
         maxn=3, liks=ALL_LIKS if thorough else [k for k in ALL_LIKS if k != "fixed"], hows=EXACT_HOWS, maxchunk=2, invariants=GROWTH_INV + ["StepReductionPSD"], properties=["VarianceMonotone"])
     # (3) the same machine over every way of adding observations: bookkeeping invariants, generates the histories to replay
     job("chain_hows", "Validity growth machine: noise structures x all step kinds (histories)", part="growth", pool=chain_pool[0], test=chain_pool[1], s2=chain_pool[2],
-        maxn=3, liks=ALL_LIKS, hows=ALL_HOWS, maxchunk=2, arith=False, modes=("exact", "fast"), invariants=["NoiseIsOwn", "NoiseFloor"])
+        maxn=3, liks=ALL_LIKS, hows=ALL_HOWS, maxchunk=2, arith=False, modes="{PathExact, PathFast}", invariants=["NoiseIsOwn", "NoiseFloor", "PathKnown"])
+    # (3b) the same machine over EVERY computational path (fast_pred_var x lazy test/test block x CG x detach_test_caches), short histories
+    job("chain_paths", "Validity growth machine: noise structures x all step kinds x all computational paths", part="growth", pool=chain_pool[0][:2], test=chain_pool[1], s2=chain_pool[2],
+        maxn=2, liks=ALL_LIKS, hows=ALL_HOWS, maxchunk=2, arith=False, modes="Paths", invariants=["NoiseIsOwn", "NoiseFloor", "PathKnown"])
+    # (3c) the noise a likelihood adds: Gaussian family x switches x constraint class x raw class
+    job("noise", "Validity noise lattice (likelihood family x switches x constraint x raw value class)", part="noise", invariants=["NoiseAtLeastBound", "NoiseSwitches"])
     # (4) the kernel lattice
     job("lattice", "Validity kernel lattice", part="lattice", scales=scales, invariants=["DomainOK", "SupportOK"])
     # the exact chain run does not generate cases: it runs (single-threaded) next to the other runs and the replay
     from concurrent.futures import ThreadPoolExecutor
     bg = ThreadPoolExecutor(max_workers=1)
-    np_ = len(jobs) - 3
-    i_exact, i_hows, i_lat = np_, np_ + 1, np_ + 2
+    np_ = len(jobs) - 5
+    i_exact, i_hows, i_paths, i_noise, i_lat = np_, np_ + 1, np_ + 2, np_ + 3, np_ + 4
     (a_exact, k_exact) = jobs[i_exact]
     fut_exact = bg.submit(tlc.run, *a_exact, **dict(k_exact, workers=1))
     front = [i for i in range(len(jobs)) if i != i_exact]
@@ -607,15 +848,25 @@ def run(ck):
     for r in rs[:np_]:
         for st in r.states():
             if len(st["obs"]) == L:
-                hists.append(("homo", "exact", [[o["p"], o["l"]] for o in st["obs"]], [[h["how"], h["m"]] for h in st["hist"]]))
+                hists.append(("homo", pkey(st["mode"]), [[o["p"], o["l"]] for o in st["obs"]], [[h["how"], h["m"]] for h in st["hist"]]))
     single = sorted(set((a, md, tuple(map(tuple, b)), tuple(map(tuple, c))) for a, md, b, c in hists))
-    chains = sorted(set((st["lik"], st["mode"], tuple((o["p"], o["l"]) for o in st["obs"]), tuple((h["how"], h["m"]) for h in st["hist"]))
+    chains = sorted(set((st["lik"], pkey(st["mode"]), tuple((o["p"], o["l"]) for o in st["obs"]), tuple((h["how"], h["m"]) for h in st["hist"]))
                         for st in rs[i_hows].states() if len(st["obs"]) == 3))
+    pchains = sorted(set((st["lik"], pkey(st["mode"]), tuple((o["p"], o["l"]) for o in st["obs"]), tuple((h["how"], h["m"]) for h in st["hist"]))
+                         for st in rs[i_paths].states() if len(st["obs"]) == 2))
+    if len(set(md for _, md, _, _ in pchains)) != 16 or set(h for _, _, _, hs in pchains for h, _ in hs) != set(ALL_HOWS) or set(lk for lk, _, _, _ in pchains) != set(ALL_LIKS):
+        ck.vacuous("the path run did not reach every computational path x step kind x noise structure")
+    ncells = [dict(what="noisecell", shape={k: (bool(v) if isinstance(v, bool) else v) for k, v in st["c"]["shape"].items()}, raw=st["c"]["raw"], bound=st["c"]["bound"],
+                   valid=bool(st["out"]["valid"]), ncon=st["out"]["ncon"], tight=bool(st["out"]["tight"]), floor=list(st["out"]["floor"]), seed=ck.seed * 10 + 3)
+              for st in rs[i_noise].states()]
+    ncells.sort(key=lambda c: (c["shape"]["lik"], c["shape"]["glob"], c["shape"]["task"], c["shape"]["rank"], c["bound"], c["raw"]))
+    if len(ncells) < 60 or not any(not c["valid"] for c in ncells) or not any(c["tight"] for c in ncells):
+        ck.vacuous("noise lattice: cells missing (%d)" % len(ncells))
     if not single or not chains:
         ck.vacuous("no growth histories generated")
     seen_hows = set(h for _, _, _, hs in chains for h, _ in hs)
     seen_liks = set(lk for lk, _, _, _ in chains)
-    if seen_hows != set(ALL_HOWS) or seen_liks != set(ALL_LIKS) or not any(m == 2 for _, _, _, hs in chains for _, m in hs) or set(md for _, md, _, _ in chains) != {"exact", "fast"}:
+    if seen_hows != set(ALL_HOWS) or seen_liks != set(ALL_LIKS) or not any(m == 2 for _, _, _, hs in chains for _, m in hs) or len(set(md for _, md, _, _ in chains)) != 2:
         ck.vacuous("growth machine did not take every step kind / noise structure / chunk size: %s %s" % (sorted(seen_hows), sorted(seen_liks)))
     # ---- lattice cells ----
     cells = []
@@ -638,13 +889,13 @@ def run(ck):
     # ---- growth cases ----
     geoms = ["duplicates", "near-coincident", "far-offset", "spread", "clustered"]
 
-    def growth_case(k, lk, md, obs, hs, i):
+    def growth_case(k, lk, md, obs, hs, i, variant=None, geom=None):
         fam, arg, ard = GROWTH_KERNELS[k]
         if fam in NO_FANTASY and any(h in ("fantasy", "listfantasy") for h, _ in hs):
             fam, arg, ard = GROWTH_KERNELS[(k + 1) % len(GROWTH_KERNELS)]
         gl = [g for g in geoms if g != "far-offset" or fam in STATIONARY]
         vs = VARIANTS[lk]
-        return dict(what="chain", kernel=[fam, arg, ard], geometry=gl[i % len(gl)], d=1 if DOMAIN.get(fam) == "d1" else 2, lik=lk, variant=vs[(i // 3) % len(vs)], mode=md,
+        return dict(what="chain", kernel=[fam, arg, ard], geometry=geom or gl[i % len(gl)], d=1 if DOMAIN.get(fam) == "d1" else 2, lik=lk, variant=variant or vs[(i // 3) % len(vs)], mode=dict(md),
                     obs=[list(o) for o in obs], hist=[list(h) for h in hs], seed=ck.seed * 100 + 7 + (i % 5))
     nk = len(GROWTH_KERNELS)
     # single-point histories: thorough = every history with 6 of the kernels, quick = every 9th history per kernel
@@ -661,13 +912,28 @@ def run(ck):
         if thorough:
             # every observation sequence once, the prediction mode alternating with it
             for pi, obs in enumerate(sorted(set(o for _, o in plans))):
-                cases.append(growth_case((gi + pi) % nk, lk, "exact", obs, hs, gi + pi))
-                cases.append(growth_case((gi + pi + 7) % nk, lk, "fast", obs, hs, gi + pi + 1))
+                cases.append(growth_case((gi + pi) % nk, lk, P_EXACT, obs, hs, gi + pi))
+                cases.append(growth_case((gi + pi + 7) % nk, lk, P_FAST, obs, hs, gi + pi + 1))
         else:
             for t in range(4):
                 k = (gi + 5 * t) % nk
                 md, obs = plans[(gi * 7 + k * 3) % len(plans)]
                 cases.append(growth_case(k, lk, md, obs, hs, gi + k))
+    # path histories: every (noise structure, computational path, history shape) once (thorough: twice), the observation sequence, the kernel and
+    # the likelihood class rotating
+    pgroups = {}
+    for lk, md, obs, hs in pchains:
+        pgroups.setdefault((lk, md, hs), []).append(obs)
+    for gi, ((lk, md, hs), plans) in enumerate(sorted(pgroups.items())):
+        for t in range(2 if thorough else 1):
+            k = (gi * 5 + 11 * t) % nk
+            cases.append(growth_case(k, lk, md, plans[(gi + 3 * t) % len(plans)], hs, gi + 2 * t))
+        if lk == "homo":
+            # the structured (Kronecker) train covariance of the multitask model takes its own branches of the solver / root code:
+            # every path x history shape also on the multitask likelihood, on two distinct rows
+            distinct = [o for o in plans if len(set(p_ for p_, _ in o)) == len(o)] or plans
+            cases.append(growth_case((gi * 3 + 1) % nk, lk, md, distinct[gi % len(distinct)], hs, gi + 1, variant="mtask", geom="spread" if gi % 2 else None))
+    cases += ncells
     rnd.shuffle(cases)
     items = [dict(cases=cases[i:i + 8]) for i in range(0, len(cases), 8)] + [dict(cases=v) for v in configs.values()]
     rnd.shuffle(items)
@@ -684,8 +950,10 @@ def run(ck):
     results += variance_floor_cases(torch, gpytorch)
     ck.absorb(results)
     nchain = sum(1 for c in cases if c["what"] == "chain")
+    ck.section("paths", path_histories=len(pchains), path_groups=len(pgroups), paths=len(set(md for _, md, _, _ in pchains)), noise_cells=len(ncells),
+               growth_cases_off_default_path=sum(1 for c in cases if c["what"] == "chain" and (c["mode"]["lazy"] or c["mode"]["cg"] or not c["mode"]["detach"])))
     ck.section("timing", tlc_front_s=round(t_front, 1), replay_done_s=round(t_replay, 1), exact_run_s=round(rs[i_exact].wall_s, 1))
-    ck.section("replay", gram_cases=len(cells), growth_cases=nchain, growth_cases_fast_pred_var=sum(1 for c in cases if c.get("mode") == "fast"), single_point_histories=len(single), chain_histories=len(chains),
+    ck.section("replay", gram_cases=len(cells), growth_cases=nchain, growth_cases_fast_pred_var=sum(1 for c in cases if c["what"] == "chain" and c["mode"]["fast"]), single_point_histories=len(single), chain_histories=len(chains),
                history_shapes=len(groups), exact_chain_leaves=exact_leaves, comparisons=len(results))
 
 
@@ -693,7 +961,7 @@ def replay(rep):
     torch = core.setup_torch()
     import gpytorch
     c = rep["case"]
-    if c.get("what") in ("gram", "chain"):
+    if c.get("what") in ("gram", "chain", "noisecell"):
         bad = [r for r in run_case(torch, gpytorch, c) if not r["ok"]]
     elif c.get("what") == "floor":
         bad = [r for r in variance_floor_cases(torch, gpytorch) if not r["ok"]]
